@@ -107,6 +107,17 @@ type C11Case struct {
 	Noise    []C11Var            `json:"noise,omitempty"` // variables that name no leaf
 	Bad      *C11Var             `json:"bad,omitempty"`   // a leaf variable with an unacceptable text
 	GenTags  []string            `json:"gen_tags,omitempty"`
+	// Later holds the environments of further Value calls made on the SAME
+	// *env.Source with the same config type (the first call uses Vars / Noise
+	// / Bad above).
+	Later []C11Step `json:"later,omitempty"`
+}
+
+// C11Step is the environment of one Value call.
+type C11Step struct {
+	Vars  []C11Var `json:"vars,omitempty"`
+	Noise []C11Var `json:"noise,omitempty"`
+	Bad   *C11Var  `json:"bad,omitempty"`
 }
 
 func genTagWords(rt *rapid.T) []string {
@@ -356,6 +367,59 @@ func genC11(rt *rapid.T) C11Case {
 		txt := rapid.SampledFrom([]string{"1", "true", "x", "", "7s", "a,b", "k:1"}).Draw(rt, "noise_text")
 		c.Noise = append(c.Noise, C11Var{Name: name, Text: txt})
 	}
+	// History: further calls on the same Source with other environments --
+	// variables of the previous call disappear, change or stay, others appear.
+	nLater := rapid.SampledFrom([]int{0, 0, 1, 1, 2}).Draw(rt, "later_calls")
+	prevVars := c.Vars
+	for si := 0; si < nLater; si++ {
+		var st C11Step
+		prev := map[string]C11Var{}
+		for _, v := range prevVars {
+			prev[v.Name] = v
+		}
+		var free []string
+		for _, name := range order {
+			g := groups[name]
+			if !g.settable {
+				continue
+			}
+			pv, was := prev[name]
+			switch k := rapid.IntRange(0, 9).Draw(rt, "later_fate"); {
+			case was && k < 4: // gone
+				free = append(free, name)
+			case was && k < 7, !was && k < 3: // changed / appeared
+				r := genValue(rt, shape.MustType(g.typ))
+				st.Vars = append(st.Vars, C11Var{Name: name, Type: g.typ, Val: r.Val, Text: r.Text})
+			case was:
+				st.Vars = append(st.Vars, pv)
+			default:
+				free = append(free, name)
+			}
+		}
+		if rapid.IntRange(0, 5).Draw(rt, "later_bad") == 0 {
+			var cands []string
+			for _, name := range free {
+				if len(badTexts(shape.MustType(groups[name].typ))) > 0 {
+					cands = append(cands, name)
+				}
+			}
+			if len(cands) > 0 {
+				name := rapid.SampledFrom(cands).Draw(rt, "later_bad_var")
+				typ := groups[name].typ
+				st.Bad = &C11Var{Name: name, Type: typ, Text: rapid.SampledFrom(badTexts(shape.MustType(typ))).Draw(rt, "later_bad_text")}
+			}
+		}
+		for _, n := range c.Noise {
+			if rapid.Bool().Draw(rt, "later_noise") {
+				st.Noise = append(st.Noise, n)
+			}
+		}
+		c.Later = append(c.Later, st)
+		prevVars = st.Vars
+	}
+	if nLater > 0 {
+		noteTag("history")
+	}
 	for t := range tagSet {
 		c.GenTags = append(c.GenTags, t)
 	}
@@ -516,6 +580,13 @@ func setAtPath(root reflect.Value, names []string, val reflect.Value) error {
 	return nil
 }
 
+// c11StepModel is what one call's environment must produce.
+type c11StepModel struct {
+	step       C11Step
+	wantByPath map[string]reflect.Value
+	textByPath map[string]string
+}
+
 func runC11(c C11Case) vrt.Verdict {
 	T, err := c.Shape.Build()
 	if err != nil {
@@ -530,41 +601,48 @@ func runC11(c C11Case) vrt.Verdict {
 	}
 	groups, _ := c11Groups(leaves, c.Prefix)
 
-	// what each leaf must hold
-	wantByPath := map[string]reflect.Value{}
-	textByPath := map[string]string{}
-	seenVar := map[string]bool{}
-	for _, v := range c.Vars {
-		g, ok := groups[v.Name]
-		if !ok || !g.settable || seenVar[v.Name] || g.typ != v.Type {
-			return vrt.Discardf("variable does not name a settable leaf group")
-		}
-		seenVar[v.Name] = true
-		for _, l := range g.leaves {
-			w, err := c11Build(shape.MustType(l.Type), v.Val)
-			if err != nil {
-				return vrt.Discardf("value of %s: %v", v.Name, err)
+	// what each leaf must hold after each call: a function of that call's
+	// environment alone
+	steps := append([]C11Step{{Vars: c.Vars, Noise: c.Noise, Bad: c.Bad}}, c.Later...)
+	if len(steps) > 4 {
+		return vrt.Discardf("too many calls")
+	}
+	models := make([]c11StepModel, len(steps))
+	for si, st := range steps {
+		m := c11StepModel{step: st, wantByPath: map[string]reflect.Value{}, textByPath: map[string]string{}}
+		seenVar := map[string]bool{}
+		for _, v := range st.Vars {
+			g, ok := groups[v.Name]
+			if !ok || !g.settable || seenVar[v.Name] || g.typ != v.Type {
+				return vrt.Discardf("variable does not name a settable leaf group")
 			}
-			wantByPath[l.Path] = w
-			textByPath[l.Path] = v.Text
+			seenVar[v.Name] = true
+			for _, l := range g.leaves {
+				w, err := c11Build(shape.MustType(l.Type), v.Val)
+				if err != nil {
+					return vrt.Discardf("value of %s: %v", v.Name, err)
+				}
+				m.wantByPath[l.Path] = w
+				m.textByPath[l.Path] = v.Text
+			}
+			if strings.ContainsRune(v.Text, 0) {
+				return vrt.Discardf("NUL in a value")
+			}
 		}
-		if strings.ContainsRune(v.Text, 0) {
-			return vrt.Discardf("NUL in a value")
+		if st.Bad != nil {
+			g, ok := groups[st.Bad.Name]
+			if !ok || seenVar[st.Bad.Name] || c11IsInert(g.typ) {
+				return vrt.Discardf("bad variable does not name a free leaf group")
+			}
 		}
-	}
-	if c.Bad != nil {
-		g, ok := groups[c.Bad.Name]
-		if !ok || seenVar[c.Bad.Name] || c11IsInert(g.typ) {
-			return vrt.Discardf("bad variable does not name a free leaf group")
+		for _, n := range st.Noise {
+			if _, ok := groups[n.Name]; ok || n.Name == "" || strings.ContainsAny(n.Name, "=\x00") || seenVar[n.Name] {
+				return vrt.Discardf("noise variable names a leaf or is not a valid name")
+			}
 		}
-	}
-	for _, n := range c.Noise {
-		if _, ok := groups[n.Name]; ok || n.Name == "" || strings.ContainsAny(n.Name, "=\x00") || seenVar[n.Name] {
-			return vrt.Discardf("noise variable names a leaf or is not a valid name")
-		}
+		models[si] = m
 	}
 
-	// by-construction classification of known-risky leaves
 	flatCount := map[string]int{}
 	for _, l := range leaves {
 		if !l.Skipped {
@@ -582,45 +660,6 @@ func runC11(c C11Case) vrt.Verdict {
 	d := shape.Data{Defaults: c.Defaults, DefNil: c.DefNil}
 	defaults := b.Defaults(d)
 	PT := ptrify.Pointerify(T, defaults.Elem())
-
-	// ---- execute with the environment set, then restore it ----
-	g := &envGuard{saved: map[string]*string{}}
-	var got reflect.Value
-	var callErr error
-	var panicked any
-	func() {
-		defer g.restore()
-		for _, l := range leaves {
-			g.unset(fullName(c.Prefix, l.Name))
-		}
-		for _, n := range c.Noise {
-			if err := g.set(n.Name, n.Text); err != nil {
-				callErr = fmt.Errorf("harness: setenv %q: %w", n.Name, err)
-				return
-			}
-		}
-		for _, v := range c.Vars {
-			if err := g.set(v.Name, v.Text); err != nil {
-				callErr = fmt.Errorf("harness: setenv %q: %w", v.Name, err)
-				return
-			}
-		}
-		if c.Bad != nil {
-			if err := g.set(c.Bad.Name, c.Bad.Text); err != nil {
-				callErr = fmt.Errorf("harness: setenv %q: %w", c.Bad.Name, err)
-				return
-			}
-		}
-		defer func() {
-			if r := recover(); r != nil {
-				panicked = r
-			}
-		}()
-		got, callErr = (&env.Source{Prefix: c.Prefix}).Value(context.Background(), dials.NewType(PT))
-	}()
-	if callErr != nil && strings.HasPrefix(callErr.Error(), "harness:") {
-		return vrt.Discardf("%v", callErr)
-	}
 
 	// ---- labels ----
 	labels := append([]string{}, c.GenTags...)
@@ -642,34 +681,41 @@ func runC11(c C11Case) vrt.Verdict {
 			collision = true
 		}
 	}
-	prefixStartsName := false
-	for _, l := range leaves {
-		if !l.Skipped && c.Prefix != "" && strings.HasPrefix(l.Name, c.Prefix+"_") {
-			if _, ok := wantByPath[l.Path]; ok {
-				prefixStartsName = true
+	prefixStartsName, anyBad, anyNoise := false, false, false
+	dropped, changed, appeared := false, false, false
+	for si, m := range models {
+		anyBad = anyBad || m.step.Bad != nil
+		anyNoise = anyNoise || len(m.step.Noise) > 0
+		for _, l := range leaves {
+			if !l.Skipped && c.Prefix != "" && strings.HasPrefix(l.Name, c.Prefix+"_") {
+				if _, ok := m.wantByPath[l.Path]; ok {
+					prefixStartsName = true
+				}
+			}
+			if si > 0 && !l.Skipped {
+				_, was := models[si-1].wantByPath[l.Path]
+				_, is := m.wantByPath[l.Path]
+				switch {
+				case was && !is:
+					dropped = true
+				case !was && is:
+					appeared = true
+				case was && is && models[si-1].textByPath[l.Path] != m.textByPath[l.Path]:
+					changed = true
+				}
 			}
 		}
 	}
-	if prefixStartsName {
-		labels = append(labels, "set-leaf-name-starts-with-prefix")
-	}
-	labels = append(labels, fmt.Sprintf("depth=%d", maxDepth), fmt.Sprintf("vars=%d", min(len(c.Vars), 5)))
+	labels = append(labels, fmt.Sprintf("depth=%d", maxDepth), fmt.Sprintf("vars=%d", min(len(c.Vars), 5)), fmt.Sprintf("calls=%d", len(steps)))
 	for cond, l := range map[string]bool{"inner-dials-tag": innerTag, "dialsenv-tag": anyEnvTag, "embedded": anyEmbedded, "inert-leaf": anyInert,
-		"shared-variable": collision, "flat-name-collision": flatCollision, "prefix": c.Prefix != "", "noise": len(c.Noise) > 0, "bad-value": c.Bad != nil} {
+		"shared-variable": collision, "flat-name-collision": flatCollision, "prefix": c.Prefix != "", "noise": anyNoise, "bad-value": anyBad,
+		"set-leaf-name-starts-with-prefix": prefixStartsName, "history:variable-dropped": dropped, "history:variable-changed": changed, "history:variable-appeared": appeared} {
 		if l {
 			labels = append(labels, cond)
 		}
 	}
 	sort.Strings(labels)
 	nonTrivial := (maxDepth >= 2 || innerTag) && len(c.Vars) >= 2
-
-	if panicked != nil {
-		msg := fmt.Sprint(panicked)
-		if flatCollision && strings.Contains(msg, "duplicate field") {
-			return vrt.Discardf("flattened field names collide")
-		}
-		return vrt.KeyedViolationf("panic", "env.Source.Value panicked: %s", msg).With(false, labels...)
-	}
 
 	riskKey := func(l c11Leaf) string {
 		switch {
@@ -680,104 +726,186 @@ func runC11(c C11Case) vrt.Verdict {
 		}
 		return ""
 	}
-	fail := func(key, format string, a ...any) vrt.Verdict {
+	fail := func(key, format string, a ...any) *vrt.Verdict {
+		var v vrt.Verdict
 		if key != "" {
-			return vrt.KeyedViolationf(key, format, a...).With(false, labels...)
+			v = vrt.KeyedViolationf(key, format, a...).With(false, labels...)
+		} else {
+			v = vrt.Violationf(format, a...).With(false, labels...)
 		}
-		return vrt.Violationf(format, a...).With(false, labels...)
+		return &v
 	}
 
-	// ---- a bad value is an error and no value ----
-	if c.Bad != nil {
-		if callErr == nil {
-			key := ""
-			for _, l := range groups[c.Bad.Name].leaves {
-				key = riskKey(l)
+	// leafCheck compares a returned value leaf by leaf with a call's model:
+	// set iff its variable is present, to exactly the value.
+	leafCheck := func(got reflect.Value, m c11StepModel, when string) *vrt.Verdict {
+		for _, l := range leaves {
+			if l.Skipped {
+				continue
 			}
-			return fail(key, "variable %s=%q is not an acceptable %s, but Value returned no error", c.Bad.Name, c.Bad.Text, c.Bad.Type)
-		}
-		if got.IsValid() {
-			return fail("", "Value returned an error (%v) together with a value of type %s", callErr, got.Type())
-		}
-		return vrt.OK(nonTrivial, labels...)
-	}
-	if callErr != nil {
-		// A noise variable may coincide with the (wrong) name a known naming
-		// defect makes the source look up; classify such a failure with it.
-		key := ""
-		if len(c.Noise) > 0 {
-			for _, l := range leaves {
-				if k := riskKey(l); !l.Skipped && k != "" {
-					key = k
+			f := shape.FieldByPath(got, l.Path)
+			isSet := f.IsValid()
+			if isSet {
+				switch f.Kind() {
+				case reflect.Pointer, reflect.Slice, reflect.Map:
+					isSet = !f.IsNil()
+				}
+			}
+			want, wantSet := m.wantByPath[l.Path]
+			vn := fullName(c.Prefix, l.Name)
+			switch {
+			case wantSet && !isSet:
+				return fail(riskKey(l), "%sleaf %s (%s): variable %s=%q is present but the leaf is unset", when, l.Path, l.Type, vn, m.textByPath[l.Path])
+			case !wantSet && isSet:
+				return fail(riskKey(l), "%sleaf %s (%s): variable %s is absent but the leaf is set to %v", when, l.Path, l.Type, vn, f)
+			case wantSet:
+				gv := f
+				if gv.Type() != want.Type() {
+					if gv.Kind() != reflect.Pointer || gv.Type().Elem() != want.Type() {
+						return fail("", "%sleaf %s: result field has type %s, want %s or a pointer to it", when, l.Path, gv.Type(), want.Type())
+					}
+					gv = gv.Elem()
+				}
+				if df := shape.Diff(want, gv); df != "" {
+					return fail("", "%sleaf %s (%s): variable %s=%q gave a different value at %s (want vs got)", when, l.Path, l.Type, vn, m.textByPath[l.Path], df)
 				}
 			}
 		}
-		return fail(key, "Value failed although every variable holds an acceptable text: %v", callErr)
-	}
-	if !got.IsValid() || got.Type() != PT {
-		return fail("", "Value returned type %v, want the requested type %s", got, PT)
+		return nil
 	}
 
-	// ---- leaf by leaf: set iff its variable is present, to exactly the value ----
-	for _, l := range leaves {
-		if l.Skipped {
+	// ONE source for every call of the case, as a long-lived program has.
+	src := &env.Source{Prefix: c.Prefix}
+	results := make([]reflect.Value, len(steps))
+	for si, m := range models {
+		st := m.step
+		when := ""
+		if len(steps) > 1 {
+			when = fmt.Sprintf("call %d of %d on one Source: ", si+1, len(steps))
+		}
+		// ---- execute with the environment set, then restore it ----
+		g := &envGuard{saved: map[string]*string{}}
+		var got reflect.Value
+		var callErr error
+		var panicked any
+		func() {
+			defer g.restore()
+			for _, l := range leaves {
+				g.unset(fullName(c.Prefix, l.Name))
+			}
+			for _, other := range steps { // noise of other calls must be gone too
+				for _, n := range other.Noise {
+					g.unset(n.Name)
+				}
+			}
+			for _, n := range st.Noise {
+				if err := g.set(n.Name, n.Text); err != nil {
+					callErr = fmt.Errorf("harness: setenv %q: %w", n.Name, err)
+					return
+				}
+			}
+			for _, v := range st.Vars {
+				if err := g.set(v.Name, v.Text); err != nil {
+					callErr = fmt.Errorf("harness: setenv %q: %w", v.Name, err)
+					return
+				}
+			}
+			if st.Bad != nil {
+				if err := g.set(st.Bad.Name, st.Bad.Text); err != nil {
+					callErr = fmt.Errorf("harness: setenv %q: %w", st.Bad.Name, err)
+					return
+				}
+			}
+			defer func() {
+				if r := recover(); r != nil {
+					panicked = r
+				}
+			}()
+			got, callErr = src.Value(context.Background(), dials.NewType(PT))
+		}()
+		if callErr != nil && strings.HasPrefix(callErr.Error(), "harness:") {
+			return vrt.Discardf("%v", callErr)
+		}
+		if panicked != nil {
+			msg := fmt.Sprint(panicked)
+			if flatCollision && strings.Contains(msg, "duplicate field") {
+				return vrt.Discardf("flattened field names collide")
+			}
+			return vrt.KeyedViolationf("panic", "%senv.Source.Value panicked: %s", when, msg).With(false, labels...)
+		}
+
+		// ---- a bad value is an error and no value ----
+		if st.Bad != nil {
+			if callErr == nil {
+				key := ""
+				for _, l := range groups[st.Bad.Name].leaves {
+					key = riskKey(l)
+				}
+				return *fail(key, "%svariable %s=%q is not an acceptable %s, but Value returned no error", when, st.Bad.Name, st.Bad.Text, st.Bad.Type)
+			}
+			if got.IsValid() {
+				return *fail("", "%sValue returned an error (%v) together with a value of type %s", when, callErr, got.Type())
+			}
 			continue
 		}
-		f := shape.FieldByPath(got, l.Path)
-		isSet := f.IsValid()
-		if isSet {
-			switch f.Kind() {
-			case reflect.Pointer, reflect.Slice, reflect.Map:
-				isSet = !f.IsNil()
-			}
-		}
-		want, wantSet := wantByPath[l.Path]
-		vn := fullName(c.Prefix, l.Name)
-		switch {
-		case wantSet && !isSet:
-			return fail(riskKey(l), "leaf %s (%s): variable %s=%q is present but the leaf is unset", l.Path, l.Type, vn, textByPath[l.Path])
-		case !wantSet && isSet:
-			return fail(riskKey(l), "leaf %s (%s): variable %s is absent but the leaf is set to %v", l.Path, l.Type, vn, f)
-		case wantSet:
-			gv := f
-			if gv.Type() != want.Type() {
-				if gv.Kind() != reflect.Pointer || gv.Type().Elem() != want.Type() {
-					return fail("", "leaf %s: result field has type %s, want %s or a pointer to it", l.Path, gv.Type(), want.Type())
+		if callErr != nil {
+			// A noise variable may coincide with the (wrong) name a known naming
+			// defect makes the source look up; classify such a failure with it.
+			key := ""
+			if len(st.Noise) > 0 {
+				for _, l := range leaves {
+					if k := riskKey(l); !l.Skipped && k != "" {
+						key = k
+					}
 				}
-				gv = gv.Elem()
 			}
-			if df := shape.Diff(want, gv); df != "" {
-				return fail("", "leaf %s (%s): variable %s=%q gave a different value at %s (want vs got)", l.Path, l.Type, vn, textByPath[l.Path], df)
-			}
+			return *fail(key, "%sValue failed although every variable holds an acceptable text: %v", when, callErr)
 		}
-	}
+		if !got.IsValid() || got.Type() != PT {
+			return *fail("", "%sValue returned type %v, want the requested type %s", when, got, PT)
+		}
+		if v := leafCheck(got, m, when); v != nil {
+			return *v
+		}
+		results[si] = got
 
-	// ---- stacked over the defaults: nothing else touched ----
-	stacked, err := dials.VerifCompose(defaults.Interface(), []reflect.Value{got})
-	if err != nil {
-		return fail("", "stacking the env value over the defaults failed: %v", err)
-	}
-	exp := b.Defaults(d)
-	for _, l := range leaves {
-		if w, ok := wantByPath[l.Path]; ok {
-			if err := setAtPath(exp.Elem(), strings.Split(l.Path, "."), w); err != nil {
-				return vrt.Discardf("harness: %v", err)
+		// ---- stacked over the defaults: nothing else touched ----
+		stacked, err := dials.VerifCompose(b.Defaults(d).Interface(), []reflect.Value{got})
+		if err != nil {
+			return *fail("", "%sstacking the env value over the defaults failed: %v", when, err)
+		}
+		exp := b.Defaults(d)
+		for _, l := range leaves {
+			if w, ok := m.wantByPath[l.Path]; ok {
+				if err := setAtPath(exp.Elem(), strings.Split(l.Path, "."), w); err != nil {
+					return vrt.Discardf("harness: %v", err)
+				}
 			}
 		}
+		sv := reflect.ValueOf(stacked)
+		if sv.Type() != exp.Type() {
+			return *fail("", "%sstacked value has type %s, want %s", when, sv.Type(), exp.Type())
+		}
+		if df := shape.Diff(exp.Elem(), sv.Elem()); df != "" {
+			return *fail("", "%sdefaults + env value differs from defaults with exactly the named leaves replaced at %s (want vs got)", when, df)
+		}
 	}
-	sv := reflect.ValueOf(stacked)
-	if sv.Type() != exp.Type() {
-		return fail("", "stacked value has type %s, want %s", sv.Type(), exp.Type())
+	// ---- values handed out earlier are not touched by later calls ----
+	for si := 0; si < len(steps)-1; si++ {
+		if !results[si].IsValid() {
+			continue
+		}
+		if v := leafCheck(results[si], models[si], fmt.Sprintf("after %d later call(s) the value returned by call %d changed: ", len(steps)-1-si, si+1)); v != nil {
+			return *v
+		}
 	}
-	if df := shape.Diff(exp.Elem(), sv.Elem()); df != "" {
-		return fail("", "defaults + env value differs from defaults with exactly the named leaves replaced at %s (want vs got)", df)
-	}
+	_ = defaults
 	return vrt.OK(nonTrivial, labels...)
 }
 
 const c11Rule = "config struct types from the shape grammar restricted to leaves the env source casts from text (bool, ints, uints, floats, complex, string, time.Duration, pointers to scalars, slices of scalars, maps with string keys incl. sets and map[string][]string, named collection types) plus inert leaves it cannot fill (time.Time, text-unmarshalable structs, arrays, uintptr, **int, net.IP), nested / pointer / embedded structs to depth 3, skipped fields in half the cases; " +
 	"`dials` tags at any level rendered from word lists in snake, kebab, lowerCamel, UpperCamel, the four spellings DecodeGoTags documents (initialisms in camel tags come from the golint list and are fully capitalised except as the leading word of a lowerCamel tag; every other word has >= 3 letters; digit runs only as whole non-leading snake/kebab components), `dialsenv` tags on leaves, optional prefix (fixed spellings, or in 1/4 of the cases the leading 1..3 words of some leaf's own derived name or dialsenv tag, e.g. Prefix DB with leaf DB.Host: the documented variable DB_DB_HOST is then usually set and the un-prefixed look-alike DB_HOST is present as noise with another acceptable text); " +
-	"a subset of variables set (10/50/90 % density) with boundary-biased values and quoting-heavy strings rendered by the harness (strconv, Duration.String, the documented comma/colon collection syntax with Go quoting; in string-valued maps and map[string][]string an empty value is often written as a value-less entry `k` or `k:`, also right after valued entries, which means the empty text for every map kind on the unmodified parser); noise variables derived from real names (wrong case, missing/extra prefix, dropped or doubled separators, path-joined name of a dialsenv leaf, names of skipped fields, prefixes/suffixes, sibling joins); in 1/4 of the cases one unparsable or just-out-of-range text (incl. float32/complex64 parts just beyond float32, and for scalar-valued maps a value-less entry after a valued one: a:10,b: is an error, not b:10). " +
+	"a subset of variables set (10/50/90 % density) with boundary-biased values and quoting-heavy strings rendered by the harness (strconv incl. 0x / 0o / legacy-octal leading-zero integer spellings, Duration.String, the documented comma/colon collection syntax with Go quoting; in string-valued maps and map[string][]string an empty value is often written as a value-less entry `k` or `k:`, also right after valued entries, which means the empty text for every map kind on the unmodified parser); noise variables derived from real names (wrong case, missing/extra prefix, dropped or doubled separators, path-joined name of a dialsenv leaf, names of skipped fields, prefixes/suffixes, sibling joins); in about half of the cases one or two further Value calls are made on the SAME *env.Source with another environment (each variable of the previous call disappears / changes / stays, others appear, noise is thinned, sometimes a bad text), every result is compared with the model of its own call and the earlier results are re-compared at the end; in 1/4 of the cases one unparsable or just-out-of-range text (incl. float32/complex64 parts just beyond float32, and for scalar-valued maps a value-less entry after a valued one: a:10,b: is an error, not b:10). " +
 	"Oracle: expected variable name known by construction (dialsenv verbatim, else UPPER_SNAKE of tag/name words along the path, untagged embedded structs contribute nothing, prefix + '_' in front of every name); result has the requested type; a leaf is non-nil iff its variable is present and then equals the generated value; defaults stacked with the result equal defaults with exactly those leaves replaced; a bad text gives an error and an invalid Value. " +
 	"non-trivial = (>=2 levels of nesting or a dials tag on an inner level) and >=2 variables set; distinct = distinct case JSON"
 
@@ -785,7 +913,8 @@ var c11Assumptions = []string{
 	"the environment is process-global: cases run sequentially, every touched variable (all leaf names of the case, noise, skipped-field names) is saved, cleared before the call and restored afterwards",
 	"the empty map key is written quoted (\"\":v), as the repaired splitMap accepts it",
 	"named scalar leaf types (and collections of them) and *[]T, *map, [][]T leaves are included since their repairs; C11_NAMED_SCALARS=0 / C11_PANICKY_COLLECTIONS=0 exclude them again",
-	"integers are parsed with base 0 (as parse.parseNumber does), so a small share of integer texts carry a 0x prefix or a + sign",
+	"integers are Go integer literals (parse.parseNumber calls ParseInt/ParseUint with base 0; observed on the unmodified tree for signed, unsigned and named kinds, also as slice elements and map values): a share of the texts carry a 0x / 0o prefix, a + sign, or a leading zero, which means legacy octal (0755 = 493, -010 = -8, 00 = 0); 089, 09, -08 are errors",
+	"one *env.Source serves every call of a case (1..3 calls with the same config type, different environments); each result must be a function of that call's environment alone and earlier results must stay as returned",
 	"two leaves whose names coincide legitimately share one variable; such a group is only given a value when all its leaves have the same type",
 	"ALL-CAPS / UPPER_SNAKE `dials` tags are outside the domain: the env source decodes dials tags with caseconversion.DecodeGoTags, which documents only CamelCase, snake_case and kebab-case with fully capitalised acronyms and reads an all-caps word as an acronym run by design",
 	"the configurable leaves flatten to distinct Go field names (concatenated Go names along the path): the generator renames by construction ({Host{Port}; HostPort} becomes HostPortAlpha); a replayed case that still collides and panics with 'duplicate field' is discarded",
